@@ -358,3 +358,6 @@ def run(ctx, rep) -> None:
     for i, label in sorted(bad.items()):
         rep.classified(label if label.startswith('F') else '', f'{label}: {str(recs[i])[:500]}', payload=recs[i])
     vault_stage(ctx, rep)
+    # the error pauses (and every other interruptible sleep of the framework) are aiotime.sleep: the real coroutine against Kits.tla
+    from vf import kits
+    kits.stage(ctx, rep, 'the error pause (aiotime.sleep)')
